@@ -105,3 +105,17 @@ def first_local_header(data):
     name = data[30:30 + nlen]
     payload = data[30 + nlen + elen:30 + nlen + elen + csize]
     return (sig == 0x04034b50, method, elen, name.decode('utf-8', 'replace'), payload, flag)
+
+def foreign_folders_sx(pk):
+    """the folders of embedded objects whose content.xml is not an OpenDocument part, as the library itself judges it
+    (odf.opendocument.__isOpenDocumentPart: the value of the model's parameter `foreign`), as an s-expression list"""
+    import odf.opendocument as O
+    from vlib import sx_str
+    judge = O.__dict__.get('__isOpenDocumentPart')
+    out = []
+    for p, _ in (pk['manifest'] or []):
+        if p.startswith('Object ') and p.endswith('/content.xml') and p in pk['members'] and judge is not None:
+            try:
+                if not judge(pk['members'][p].decode('utf-8')): out.append(p[:-11])
+            except UnicodeDecodeError: pass
+    return '(' + ' '.join(sx_str(f) for f in out) + ')'
